@@ -603,6 +603,8 @@ func gen(r *lib.Rand, tier string, emit func(string)) {
 			g.start()
 			g.serIP6(1+2*(i&1), false, fmt.Sprintf("pat:%d:%d", r.Intn(251), r.Pick([]int{65536, 65537, 70001})))
 			g.serIP6(2*(i&1), false, fmt.Sprintf("pat:%d:%d", r.Intn(251), r.Pick([]int{65536, 70001})))
+			g.serIP6(i&3, true, fmt.Sprintf("pat:%d:%d", r.Intn(251), r.Pick([]int{65536, 70001})))
+			g.serIP6(1, true, fmt.Sprintf("pat:%d:%d", r.Intn(251), 65536))
 		}
 	}
 
